@@ -815,11 +815,7 @@ class MECall(MEContract):
         return [NS(name=f"begin={b}", begin=b) for b in ("left", "right")]
 
     def inputs(self, cx, case):
-        ref = me_case_inputs(cx, case.begin)
-        f = cx.fields(ref)
-        # the environment of the current position has been completed (post-condition of init_segment / move_*)
-        cx.assume(env_complete(env_at(f, f["pos"]), f["pos"], f["bsz"]))
-        return dict(self=ref)
+        return dict(self=me_case_inputs(cx, case.begin))  # (class invariant only: completeness at pos follows from it)
 
     def ensures(self, a, r, cx, case):
         f = cx.fields(a.self)
@@ -1173,6 +1169,10 @@ class DContract(MEContract, c08.MPSContract):
     def call_dmrg(self, cx, bm, args, kwargs, node):
         line = node.lineno
         d, m = bm.recv, bm.name
+        src = cx.old.get("update_opts") if cx.old is not None else None
+        if m.startswith("_update_local_state") and isinstance(src, dict):
+            oblige_structural(cx, f"call-arg@{line}:{m}: every update option (max_bond, cutoff, ...) handed on unchanged", "call-arg",
+                              all(k in kwargs and kwargs[k] is v for k, v in src.items()), line)
         if m in DMRG_METHODS and DMRG_METHODS[m] in REGISTRY:
             return cx.call_contract(REGISTRY[DMRG_METHODS[m]], args, kwargs, node, recv=d)
         f = cx.fields(d)
